@@ -121,6 +121,9 @@ func (h *Hub) ServeHTTP(w http.ResponseWriter, r *http.Request) {
 
 	remoteService = service
 
+	h.muxConSetup.Lock()
+	defer h.muxConSetup.Unlock()
+
 	// don't allow a second connection
 	if !h.keepThisConnection(conn, true, remoteService) {
 		_ = conn.Close()
@@ -205,6 +208,9 @@ func (h *Hub) connectFoundService(remoteService *api.ServiceDetails, host, port,
 		_ = conn.Close()
 		return errors.New(errorString)
 	}
+
+	h.muxConSetup.Lock()
+	defer h.muxConSetup.Unlock()
 
 	if !h.keepThisConnection(conn, false, remoteService) {
 		errorString := fmt.Sprintf("closing connection to %s: ignoring this connection", remoteService.SKI())
